@@ -70,6 +70,18 @@ func TestCheck(t *testing.T) {
 		{"create-next-to-lazy-directory", 20, 200},
 		{"local-replace-input-leaf", 10, 100},
 		{"depth-8-reached", 5, 50},
+		{"fault-on-tree-fetch-then-retry", 20, 200},
+		{"graft-cas-directory", 20, 200},
+		{"graft-overwrites-entry", 5, 50},
+		{"create-and-enter-replaces-leaf", 10, 100},
+		{"create-and-enter-keeps-lazy-directory", 3, 30},
+		{"create-over-existing-entry-refused", 20, 200},
+		{"immutability-probed-symlink", 20, 200},
+		{"malformed-symlink-target-refused", 3, 30},
+		{"naive-transient-fault-then-clean-merge", 3, 30},
+		{"naive-vanished-cache-file-repaired", 3, 30},
+		{"hardlink-fetcher-stress-rounds", 3, 30},
+		{"hardlink-existing-destination-refused", 20, 200},
 		{"resolvable-cas-file-checked", 20, 200},
 		{"concurrent-actions", 5, 50},
 		{"naive-fidelity", 10, 100},
@@ -88,7 +100,9 @@ func TestCheck(t *testing.T) {
 			r.Inconclusive("cannot read replay file %s: %v", rf, err)
 			return
 		}
-		if naive {
+		if naive && idx < 0 {
+			runHardlinkStress(r, -1-idx)
+		} else if naive {
 			runNaiveCase(r, idx)
 		} else {
 			runVirtualCase(r, idx)
@@ -106,15 +120,19 @@ func TestCheck(t *testing.T) {
 		go func() {
 			defer wg.Done()
 			for i := range next {
-				if i < nVirtual {
+				switch {
+				case i < nVirtual:
 					runVirtualCase(r, i)
-				} else {
+				case i < nVirtual+nNaive:
 					runNaiveCase(r, i-nVirtual)
+				default:
+					runHardlinkStress(r, i-nVirtual-nNaive)
 				}
 			}
 		}()
 	}
-	for i := 0; i < nVirtual+nNaive; i++ {
+	nStress := r.Pick(10, 150)
+	for i := 0; i < nVirtual+nNaive+nStress; i++ {
 		next <- i
 	}
 	close(next)
@@ -132,8 +150,9 @@ func replayCase(file string, seed uint64) (int, bool, error) {
 	var w struct {
 		Seed    uint64 `json:"seed"`
 		Witness struct {
-			Case  int  `json:"case"`
-			Naive bool `json:"naive"`
+			Case   int  `json:"case"`
+			Naive  bool `json:"naive"`
+			Stress bool `json:"stress"`
 		} `json:"witness"`
 	}
 	if err := json.Unmarshal(b, &w); err != nil {
@@ -141,6 +160,9 @@ func replayCase(file string, seed uint64) (int, bool, error) {
 	}
 	if w.Seed != seed {
 		return 0, false, fmt.Errorf("witness was recorded with VERIF_SEED=%d, this run uses %d", w.Seed, seed)
+	}
+	if w.Witness.Stress {
+		return -1 - w.Witness.Case, true, nil
 	}
 	return w.Witness.Case, w.Witness.Naive, nil
 }
@@ -411,6 +433,10 @@ func (c *caseRun) setupAction(a *action) bool {
 		a.logf("merge root=%s bad=%q -> %v", root.digest, root.bad, err)
 		a.h("merge", err == nil)
 		if root.bad != "" {
+			if err == nil && unspecifiedMalformation(root.bad) {
+				c.situation("unspecified-malformation-presented")
+				return true
+			}
 			if err == nil {
 				a.violate("malformed accepted kind="+root.bad+" via=MergeDirectoryContents", "a malformed root directory was merged without error",
 					map[string]any{"malformation": root.bad, "directory_message": root.msg.String()})
@@ -448,7 +474,7 @@ var opWeights = []struct {
 	w    int
 }{
 	{"lookup", 14}, {"readdir", 14}, {"prepop", 8}, {"readfile", 14}, {"symlink", 5}, {"builddir", 5},
-	{"probe", 10}, {"modify", 18}, {"faultload", 7}, {"faultread", 4}, {"walk", 1},
+	{"probe", 10}, {"modify", 20}, {"negative", 7}, {"faultload", 7}, {"faultread", 4}, {"walk", 1},
 }
 
 func (a *action) run(n int) {
@@ -551,6 +577,8 @@ func (a *action) step() {
 		a.opProbe(p, m, d)
 	case "modify":
 		a.opModify(p, m, d)
+	case "negative":
+		a.opNegative(p, m, d)
 	case "faultload":
 		a.opFaultLoad(p, m, d)
 	case "faultread":
@@ -704,7 +732,7 @@ func (c *caseRun) finalChecks(hashBefore string) {
 // checkTree exercises GetTreeRootDirectory/GetTreeChildDirectory on a real
 // Tree built from an action's root, through the same fetcher.
 func (c *caseRun) checkTree(live []*action) {
-	if len(live) == 0 || c.rng.IntN(3) != 0 {
+	if len(live) == 0 || c.rng.IntN(2) != 0 {
 		return
 	}
 	e := c.e
@@ -738,6 +766,34 @@ func (c *caseRun) checkTree(live []*action) {
 		delete(e.store.blobs, casKey(td))
 		e.store.mu.Unlock()
 	}()
+	// A storage error while fetching the Tree must surface and must not
+	// be remembered by the cache.
+	if !c.prof.Concurrent {
+		ferr := faultErrors[c.rng.IntN(len(faultErrors))]
+		e.store.arm(td, 3, ferr)
+		_, errRoot := e.df.GetTreeRootDirectory(e.ctx, td)
+		var errChild error
+		if len(kids) > 0 {
+			_, errChild = e.rawDF.GetTreeChildDirectory(e.ctx, td, kids[0].digest)
+			if c.cfg.CacheCount > 0 {
+				// Through the cache only if the child is not cached yet;
+				// use a digest the cache cannot know: the tree's own.
+				_, errChild = e.df.GetTreeChildDirectory(e.ctx, td, td)
+			}
+		}
+		fired := e.store.disarm()
+		if fired > 0 && errRoot == nil {
+			c.failCase("fault tree-root-served-despite-storage-error", "GetTreeRootDirectory succeeded although the CAS returned an error", nil)
+			return
+		}
+		if fired > 1 && errChild == nil {
+			c.failCase("fault tree-child-served-despite-storage-error", "GetTreeChildDirectory succeeded although the CAS returned an error", nil)
+			return
+		}
+		if fired > 0 {
+			c.situation("fault-on-tree-fetch-then-retry")
+		}
+	}
 	got, err := e.df.GetTreeRootDirectory(e.ctx, td)
 	if err != nil || !proto.Equal(got, root.msg) {
 		c.failCase("cache tree-root-mismatch", fmt.Sprintf("GetTreeRootDirectory: err=%v", err), map[string]any{"expected": root.msg.String(), "observed": fmt.Sprint(got)})
